@@ -51,6 +51,10 @@ def applicable(prog, lang) -> bool:
                 return False
             if it["v"] == "throws" and lang != "Java":
                 return False
+            pass
+        if k == "S" and it["v"] == "mlstr" and lang != "Python":
+            return False  # ONE string token over several lines: a triple-quoted string (Pygments splits template literals of JS / TS at line ends)
+        if k == "F":
             if it["v"] == "tailwrap" and lang not in ("Java", "TypeScript", "Python"):
                 return False  # only these header patterns know tokens between `)` and the body
             if it["v"] == "lineabove" and lang in ("JavaScript", "TypeScript"):
@@ -241,6 +245,17 @@ def render(prog, lang, layout=0):
             for _ in range(it["n"]):
                 scount += 1
                 infn = any(s[0] == "F" for s in stack)
+                if v == "mlstr":
+                    if py:
+                        L(f'"""text {scount}')
+                        out.append("more { ( text")
+                        out.append('end of text"""')
+                    else:
+                        L(f"{snm}{scount} = `text")
+                        out.append("more {{ ( text")
+                        out.append("end of text`;")
+                    mark_end()
+                    continue
                 if v == "strdelim":
                     lit = '"{ ( # // } )"'
                     if py:
